@@ -104,7 +104,7 @@ def run(check, an: Analysis):
         for path in an.paths(callee):
             mut = _mutations(path, mutation, ev)
             succeeded = [e for e in path.events if e.kind == 'call' and isinstance(
-                e.node, ast.Call) and ast.unparse(e.node.func) == '%s.succeed' % ev]
+                e.node, ast.Call) and rules.text_at(path, e, e.node.func) == '%s.succeed' % ev]
             returned = path.kind == 'return' and isinstance(path.outcome[1], ast.Constant) \
                 and path.outcome[1].value is True
             if path.normal:
@@ -139,11 +139,11 @@ def run(check, an: Analysis):
             if not path.normal:
                 continue
             pops = [e for e in path.events if e.kind == 'call' and isinstance(
-                e.node, ast.Call) and ast.unparse(e.node.func) == popper
+                e.node, ast.Call) and rules.text_at(path, e, e.node.func) == popper
                 and e.get('exit') == 'normal']
             failed = any(e.kind == 'handler' and e['exc'] == exc for e in path.events)
             succeeded = [e for e in path.events if e.kind == 'call' and isinstance(
-                e.node, ast.Call) and ast.unparse(e.node.func) == '%s.succeed' % ev]
+                e.node, ast.Call) and rules.text_at(path, e, e.node.func) == '%s.succeed' % ev]
             returned = path.kind == 'return' and isinstance(path.outcome[1], ast.Constant) \
                 and path.outcome[1].value is True
             if failed:
@@ -166,7 +166,7 @@ def run(check, an: Analysis):
     for path in an.paths(rel):
         if path.normal:
             succeeded = any(e.kind == 'call' and isinstance(e.node, ast.Call) and
-                            ast.unparse(e.node.func).endswith('.succeed')
+                            rules.text_at(path, e, e.node.func).endswith('.succeed')
                             for e in path.events)
             ok &= succeeded and path.kind == 'return' and isinstance(
                 path.outcome[1], ast.Constant) and path.outcome[1].value is True
@@ -595,7 +595,7 @@ def _serves_by_scan(an: Analysis, callee: Callee, queue: str, do: str):
             for e in kept:
                 name = None
                 if e.kind == 'call':
-                    name = ast.unparse(e.node.func.value)
+                    name = rules.text_at(path, e, e.node.func.value)
                 else:
                     following = [s for s in events[stop:] if s.kind == 'store'
                                  and s.get('value') is e.data.get('comprehension')]
@@ -648,7 +648,7 @@ def _mutations(path, mutation, ev):
         else:
             if event.kind == 'call' and isinstance(event.node, ast.Call) and \
                     isinstance(event.node.func, ast.Attribute) and \
-                    ast.unparse(event.node.func.value) == mutation[1].rsplit('.', 1)[0] and \
+                    rules.text_at(path, event, event.node.func.value) == mutation[1].rsplit('.', 1)[0] and \
                     event.node.func.attr in ('append', 'add', 'appendleft', 'insert',
                                              'extend', 'pop', 'popleft', 'remove', 'clear'):
                 result.append(index)
